@@ -32,6 +32,21 @@ theorem dequeIter_unchanged_yields_contents {d : Deque α} (h : WF d) (n : Nat) 
   simp only [List.drop_zero, Nat.sub_zero] at this
   exact ⟨this, Rep.collect_eq h⟩
 
+/-- **Unchanged container, with reads in between** (audit C15-F6). "Unchanged" does not mean "not called": while an
+iterator is live the deque may be *read* (`Front`, `Back`, `Item`, `Len`, draining another iterator), and calls that
+refuse and panic (`PopFront`/`PopBack`/`Front`/`Back` of an empty deque, `Item`/`Set` outside the range, `Shrink` of a
+negative amount) or that happen not to reallocate (`Grow`/`Shrink` that keep the buffer: last disjunct) leave it as it
+is. In every such interleaving the iterator's `Next` calls return exactly what back-to-back calls return: the contents
+front to back, then "exhausted" for ever — in particular **no spurious panic** (`dequeIter_snapshot_or_panic` alone
+would allow one). -/
+theorem dequeIter_unchanged_reads_yield_contents {d : Deque α} (h : WF d) (es : List (Ev α))
+    (hq : ∀ o, Ev.op o ∈ es → Quiet (contents d) o ∨ (applyOp d o).1 = d) :
+    runEv d (iterate d) es =
+      ((contents d).take (nextCount es)).map (fun x => Obs.item (some x))
+        ++ List.replicate (nextCount es - (contents d).length) Obs.done := by
+  rw [runEv_untouched d es (iterate d) (fun o ho => (hq o ho).elim (fun q => Rep.applyOp_quiet h (by decide) q) id)]
+  exact (dequeIter_unchanged_yields_contents h (nextCount es)).1
+
 /-- **Snapshot or panic, any interleaving.** For every well-formed state: make an iterator, then
 let *any* sequence of deque calls (each of the twelve operations, any arguments, panicking calls
 included) and `Next` calls happen in any order. What the iterator returns is a prefix of the
@@ -128,5 +143,24 @@ example :
     runEv d (iterate d) [.next, .op (.set 1 99), .next] = [.item (some 1), .panic] ∧
       SnapshotOrPanic (contents d) (runEv d (iterate d) [.next, .op (.set 1 99), .next]) := by
   refine ⟨by decide +kernel, dequeIter_snapshot_or_panic (Rep.run (by decide) _ _ _ rep_zero).1.wf _⟩
+
+/-- reads, refused calls and a non-reallocating `Grow` between the `Next`s: the whole snapshot, then "exhausted". -/
+example :
+    let d := (run (zero : Deque Int) [.pushBack 1, .pushBack 2]).1
+    let es : List (Ev Int) := [.op .len, .next, .op (.item 1), .op (.set 5 9), .op (.shrink (-1)), .op .front, .next,
+      .op (.grow 0), .op .iterate, .next, .next]
+    (∀ o, Ev.op o ∈ es → Quiet (contents d) o ∨ (applyOp d o).1 = d) ∧
+      runEv d (iterate d) es = [.item (some 1), .item (some 2), .done, .done] := by
+  refine ⟨?_, by decide +kernel⟩
+  intro o ho
+  simp only [List.mem_cons, Ev.op.injEq, reduceCtorEq, false_or, List.not_mem_nil, or_false] at ho
+  rcases ho with rfl | rfl | rfl | rfl | rfl | rfl | rfl
+  · exact Or.inl (Or.inl rfl)
+  · exact Or.inl (Or.inl rfl)
+  · exact Or.inl (Or.inr (by decide +kernel))
+  · exact Or.inl (Or.inr (by decide +kernel))
+  · exact Or.inl (Or.inl rfl)
+  · exact Or.inr (by decide +kernel)
+  · exact Or.inl (Or.inl rfl)
 
 end Juniper.Props.C15Deque
